@@ -1,4 +1,5 @@
 """C16 — pending-event queues stay bounded, never block, keep lifo posts (queued charts and LockingDeque)."""
+import ao_corr
 import queue_corr, ldseq_corr, conc_corr
 
 
@@ -10,16 +11,21 @@ def explore(run, lean):
     conc_corr.explore(run, "C16", 40 if quick else 1000, escalate=bool(lean.get("broken")))
     conc_corr.explore_clear_race(run, 40 if quick else 1000)
     conc_corr.explore_posters_only(run, "C16", 60 if run.tier == "quick" else 1500)
+    ao_corr.explore_timed_placement(run, "C16", 30 if run.tier == "quick" else 800)
     run.extra["rule"] = ("(a) random queued charts whose handlers post/defer/recall, capacities 1-4 and 500, scripts of 3-14 client ops; "
                          "(b) random single-thread operation sequences (append, appendleft, pop, popleft, clear, len) on a real "
                          "LockingDeque at capacities 1-5 and 500, biased to full queues; every operation compared with the Lean "
                          "model (result, deque, tokens, unfinished_tasks); (c) posters racing the consumer of a real ActiveObject "
                          "under the deterministic scheduler (schedule replayed on the Lean model; at quiescence no pending event "
                          "without a token); distinct by canonical JSON")
+    ROUND6_RULE = '; timed lifo / fifo posts onto pending events of an active object'
+    run.extra["rule"] += ROUND6_RULE
 
 
 def replay(case):
     cc = case.get("case", case)
+    if cc.get("what") == "timed-placement":
+        return ao_corr.replay(case)
     if "chart" in cc:
         return queue_corr.replay(case)
     if "scenario" in cc:
